@@ -287,6 +287,12 @@ def battery(prop, files, root, limit_per_file=60, jobs=16):
     errored = [(m, r) for m, r in zip(meta, bres) if r[0] == "error"]
     survived = [(m, r) for m, r in zip(meta, bres) if r[0] == "silent"]
     false_alarms = [(m, r) for m, r in zip(bmeta, gres) if r[0] != "silent"]
+    dump = os.environ.get("VERIF_TWIN_DUMP")
+    if dump:
+        import json as _json
+
+        with open(dump, "w") as fh:
+            _json.dump({"prop": prop, "survived": [{"file": m[0], "line": m[1], "edit": m[2]} for m, r in survived], "errored": [{"file": m[0], "line": m[1], "edit": m[2], "keys": r[1]} for m, r in errored], "killed": [{"file": m[0], "line": m[1], "edit": m[2], "rule": r[1][0] if r[1] else ""} for m, r in killed]}, fh, indent=0)
     return {
         "broken_total": len(broken_jobs),
         "broken_killed": len(killed),
